@@ -51,6 +51,18 @@ func ctrHasher(name string, hi bool, size int) hash.Hasher {
 	}}
 }
 
+// ownBufferHasher is ctrHasher whose ComputeHash/SumHash return the SAME backing array every time (a
+// hasher that avoids allocating): a caller must have finished with one digest before asking for the next,
+// and the library must not keep referring to a digest after the call that obtained it.
+func ownBufferHasher(name string, size int) hash.Hasher {
+	inner := ctrHasher(name, false, size).(*fixedHasher)
+	own := make([]byte, size)
+	return &fixedHasher{name: name, size: size, f: func(d []byte, n int) []byte {
+		copy(own, inner.f(d, n))
+		return own[:n]
+	}}
+}
+
 type namedHasher struct {
 	name string
 	mk   func() hash.Hasher
